@@ -9,9 +9,14 @@ import (
 
 	"hop.computer/hop/authgrants"
 	"hop.computer/hop/authkeys"
+	"hop.computer/hop/certs"
+	"hop.computer/hop/common"
 	"hop.computer/hop/config"
 	"hop.computer/hop/core"
 	"hop.computer/hop/keys"
+	"hop.computer/hop/transport"
+	"hop.computer/hop/tubes"
+	"hop.computer/hop/userauth"
 )
 
 // C05 — user login only by a listed key or a live grant, failing closed.
@@ -302,5 +307,99 @@ func VH_C05_a_login_is_decided_by_the_file_as_it_is_now() {
 		if pk == first {
 			verifCover("revoked-key-refused")
 		}
+	}
+}
+
+// ---- the login decision as a whole: hopSession.checkAuthorization ----
+
+var c05g struct {
+	tubeType   byte
+	user       string
+	leaf       *certs.Certificate
+	akOK, agOK bool
+	akUser     string
+	akKey      keys.DHPublicKey
+	akCalls    int
+	agUser     string
+	agKey      keys.DHPublicKey
+	agCalls    int
+	wrote      []byte
+}
+
+func c05Accept(m *tubes.Muxer) (tubes.Tube, error)       { return &tubes.Reliable{}, nil }
+func c05TubeType(r *tubes.Reliable) tubes.TubeType       { return tubes.TubeType(c05g.tubeType) }
+func c05TubeClose(r *tubes.Reliable) error               { return nil }
+func c05TubeWrite(r *tubes.Reliable, b []byte) (int, error) {
+	c05g.wrote = append(c05g.wrote, b...)
+	return len(b), nil
+}
+func c05GetInitMsg(r *tubes.Reliable) string               { return c05g.user }
+func c05FetchLeaf(h *transport.Handle) *certs.Certificate  { return c05g.leaf }
+func c05AuthorizeKey(s *HopServer, user string, k keys.DHPublicKey) error {
+	c05g.akCalls++
+	c05g.akUser, c05g.akKey = user, k
+	if c05g.akOK {
+		return nil
+	}
+	return errors.New("key not authorized")
+}
+func c05AuthorizeKeyAuthGrant(s *HopServer, user string, k keys.DHPublicKey) ([]authgrants.Authgrant, error) {
+	c05g.agCalls++
+	c05g.agUser, c05g.agKey = user, k
+	if c05g.agOK {
+		return []authgrants.Authgrant{{GrantType: authgrants.Shell}}, nil
+	}
+	return nil, errors.New("no grant")
+}
+
+// The server lets the client act as the requested user iff its AUTHENTICATED
+// key is listed for that user, or grants are enabled and a grant exists for
+// exactly that user and key; the confirmation byte is sent iff so, and the
+// session remembers whether it was admitted through grants.
+//
+//verif:prop C05
+//verif:replay none
+//verif:stub (*hop.computer/hop/tubes.Muxer).Accept = c05Accept
+//verif:stub (*hop.computer/hop/tubes.Reliable).Type = c05TubeType
+//verif:stub (*hop.computer/hop/tubes.Reliable).Close = c05TubeClose
+//verif:stub (*hop.computer/hop/tubes.Reliable).Write = c05TubeWrite
+//verif:stub hop.computer/hop/userauth.GetInitMsg = c05GetInitMsg
+//verif:stub (*hop.computer/hop/transport.Handle).FetchClientLeaf = c05FetchLeaf
+//verif:stub (*hop.computer/hop/hopserver.HopServer).AuthorizeKey = c05AuthorizeKey
+//verif:stub (*hop.computer/hop/hopserver.HopServer).AuthorizeKeyAuthGrant = c05AuthorizeKeyAuthGrant
+//verif:bounds first accepted tube of symbolic type (all 256 values); requested user name of 0..2 symbolic bytes; authenticated client key symbolic; authorized-keys verdict and grant verdict nondeterministic; authorization grants enabled or disabled
+//verif:cover admitted-by-key;admitted-by-grant;refused
+func VH_C05_login_is_decided_by_listed_key_or_live_grant_for_the_authenticated_key() {
+	c05g.akCalls, c05g.agCalls, c05g.wrote = 0, 0, nil
+	c05g.tubeType = verifU8("first-tube-type")
+	c05g.user = verifString("requested-user", verifPick("user-len", 0, 1, 2))
+	c05g.leaf = &certs.Certificate{}
+	copy(c05g.leaf.PublicKey[:], verifBytes("authenticated-client-key", 32))
+	c05g.akOK, c05g.agOK = verifBool("listed-in-authorized-keys"), verifBool("grant-exists")
+	enabled := verifBool("authgrants-enabled")
+	sess := &hopSession{server: &HopServer{config: &config.ServerConfig{EnableAuthgrants: enabled}}, transportConn: &transport.Handle{}, tubeMuxer: &tubes.Muxer{}}
+	ok := sess.checkAuthorization()
+	isUA := c05g.tubeType == byte(common.UserAuthTube)
+	should := verifAnd(isUA, verifOr(c05g.akOK, verifAnd(enabled, c05g.agOK)))
+	verifAssert(ok == should, "C05: the client may act as the user iff its first tube is a user-authentication request and its key is listed, or grants are enabled and a grant exists")
+	confirmed := len(c05g.wrote) > 0 && c05g.wrote[0] == userauth.UserAuthConf
+	verifAssert(confirmed == ok, "C05: the confirmation byte is sent iff the login was granted")
+	if c05g.akCalls > 0 {
+		verifAssert(verifAnd(verifStrEq(c05g.akUser, c05g.user), c05g.akKey == keys.DHPublicKey(c05g.leaf.PublicKey)), "C05: authorized_keys is consulted for the requested user and the key the transport authenticated")
+	}
+	if c05g.agCalls > 0 {
+		verifAssert(enabled, "C05: grants are consulted only when enabled")
+		verifAssert(verifAnd(verifStrEq(c05g.agUser, c05g.user), c05g.agKey == keys.DHPublicKey(c05g.leaf.PublicKey)), "C05: grants are consulted for exactly the requested user and the authenticated key")
+	}
+	if ok {
+		verifAssert(verifStrEq(sess.user, c05g.user), "C05: the session runs as the requested user")
+		verifAssert(sess.usingAuthGrant == !c05g.akOK, "C05: the session remembers that it was admitted through grants (so that C07's gates apply)")
+		if c05g.akOK {
+			verifCover("admitted-by-key")
+		} else {
+			verifCover("admitted-by-grant")
+		}
+	} else {
+		verifCover("refused")
 	}
 }
